@@ -85,15 +85,18 @@ def decodeKey (ck : Bytes) : Bytes × Bytes :=
 /-- one namespace of the state handed to the handler: `(namespace, [(entry key, value)])` -/
 abbrev NsState := Bytes × List (Bytes × Bytes)
 
-/-- the grouping loop of `GetState`: consecutive scan results with the same namespace share one
+/-- one step of the grouping loop of `GetState`, read from the back: an entry joins the group that follows it when the
+namespaces are equal, otherwise it starts a new `StateEntryNamespace` -/
+def push (x : Bytes × Bytes × Bytes) : List NsState → List NsState
+  | [] => [(x.1, [(x.2.1, x.2.2)])]
+  | (ns', es) :: gs =>
+    if x.1 = ns' then (x.1, (x.2.1, x.2.2) :: es) :: gs else (x.1, [(x.2.1, x.2.2)]) :: (ns', es) :: gs
+
+/-- the grouping loop of `GetState`: maximal runs of consecutive scan results with the same namespace share one
 `StateEntryNamespace` (`currentItem.Namespace != string(ns)` starts a new one) -/
 def group : List (Bytes × Bytes × Bytes) → List NsState
   | [] => []
-  | (ns, ek, v) :: rest =>
-    match group rest with
-    | [] => [(ns, [(ek, v)])]
-    | (ns', es) :: gs =>
-      if ns = ns' then (ns, (ek, v) :: es) :: gs else (ns, [(ek, v)]) :: (ns', es) :: gs
+  | x :: rest => push x (group rest)
 
 /-- decoded scan results `(namespace, entry key, value)` in scan order -/
 def decoded (kgc : Nat) (kv : KV) (subj : Bytes) : List (Bytes × Bytes × Bytes) :=
